@@ -113,48 +113,13 @@ Theorem C08_pet_in_range : forall (O : Orc R) (K : Consts R) (x : et0_in (T:=R))
   0 <= @pot_cap R RNum (ti_crop x) (to_precap (@et0_struct R RNum O K x)) <= cap_of (ti_crop x).
 Proof. exact pet_in_range. Qed.
 
-(* method by method, in the documented physical domain the value is non-negative already before the floor *)
-Theorem C08_et0_haude_nonneg : forall x : et0_in (T:=R),
-  0 <= ti_verd x -> Forall (fun v => 0 <= v) (ti_fkf x) -> Forall (fun v => 0 <= v) (ti_fku x) ->
-  0 <= to_precap (@et0_haude R RNum x).
-Proof. exact et0_haude_nonneg. Qed.
-
-Theorem C08_et0_file_nonneg : forall x : et0_in (T:=R),
-  0 <= ti_etnull x -> 0 <= kc_of x -> 0 <= to_precap (@et0_file R RNum x).
-Proof. exact et0_file_nonneg. Qed.
-
-Theorem C08_et0_turc_rad_nonneg : forall (O : Orc R) (K : Consts R) (x : et0_in (T:=R)),
-  0 < ti_rad x -> 0 <= ti_kcoa x -> -22 <= ti_temp x -> 0 <= kc_of x ->
-  0 <= to_precap (@et0_turc R RNum O K x) /\ 0 < 150 * (ti_temp x + 123).
-Proof. exact et0_turc_rad_nonneg. Qed.
-
-(* without measured radiation: any functions, given EXT >= 0 ... *)
-Theorem C08_et0_turc_sunshine_nonneg : forall (O : Orc R) (K : Consts R) (x : et0_in (T:=R)),
-  ti_rad x <= 0 -> 0 <= d_EXT (@day_length R RNum O K (IZR (ti_tag x)) (ti_lat x)) -> 0 <= ti_sund x ->
-  0 <= ti_kcoa x -> -22 <= ti_temp x -> 0 <= kc_of x ->
-  0 <= to_precap (@et0_turc R RNum O K x) /\
-  0 < (if ti_crop x then 150 * (ti_temp x - 1 + 123) else 150 * (ti_temp x + 123)).
-Proof. exact et0_turc_sunshine_nonneg. Qed.
-
-(* ... and EXT >= 0 holds for the true sin/cos/tan/acos and the exact constants at every latitude strictly
-   between the poles, on every day of the year *)
-Theorem C08_ext_nonneg : forall tag lat : R, -90 < lat < 90 ->
-  0 <= d_EXT (@day_length R RNum real_orc realK tag lat).
-Proof. exact ext_nonneg_real. Qed.
-
-Theorem C08_et0_turc_sunshine_nonneg_real : forall x : et0_in (T:=R),
-  ti_rad x <= 0 -> -90 < ti_lat x < 90 -> 0 <= ti_sund x -> 0 <= ti_kcoa x -> -22 <= ti_temp x ->
-  0 <= kc_of x -> 0 <= to_precap (@et0_turc R RNum real_orc realK x).
-Proof. exact et0_turc_sunshine_nonneg_real. Qed.
-
-(* Priestley-Taylor and Penman-Monteith floor their reference ET themselves: non-negative for ANY functions *)
-Theorem C08_et0_pt_nonneg : forall (O : Orc R) (K : Consts R) (x : et0_in (T:=R)),
-  0 <= kc_of x -> 0 <= to_et0 (@et0_pt R RNum O K x) /\ 0 <= to_precap (@et0_pt R RNum O K x).
-Proof. exact et0_pt_nonneg. Qed.
-
-Theorem C08_et0_pm_nonneg : forall (O : Orc R) (K : Consts R) (x : et0_in (T:=R)),
-  0 <= kc_of x -> 0 <= to_et0 (@et0_pm R RNum O K x) /\ 0 <= to_precap (@et0_pm R RNum O K x).
-Proof. exact et0_pm_nonneg. Qed.
+(* method by method (Haude; reference ET from the file; Turc-Wendling with measured radiation; Turc-Wendling
+   with radiation from sunshine hours, given EXT >= 0; Priestley-Taylor; Penman-Monteith), in the documented
+   physical domain the value is non-negative already before the floor; the last two floor their reference ET
+   themselves and need no fact about the functions.  [methods_nonneg_stmt] (Et0Proofs.v) is the conjunction of
+   the six statements. *)
+Theorem C08_et0_methods_nonneg : methods_nonneg_stmt.
+Proof. exact methods_nonneg_lemma. Qed.
 
 (* all methods at once; inside the domain and below the cap the cap/floor step is the identity *)
 Theorem C08_et0_all_methods_nonneg : forall (O : Orc R) (K : Consts R) (x : et0_in (T:=R)),
@@ -173,26 +138,18 @@ Theorem C08_pot_nonneg_refuted : forall (O : Orc R) (K : Consts R),
   @pot_cap R RNum true (to_precap (@et0_struct R RNum O K turc_witness)) = 0.
 Proof. exact pot_nonneg_refuted. Qed.
 
-(* definedness of the combination formulas: their divisors are positive (functions with exp > 0,
-   pow(v,2) > 0 for v <> 0, pow(v,w) > 0 for v > 0 - facts the true functions have) *)
-Theorem C08_real_functions_ok : orc_ok real_orc.
-Proof. exact real_orc_ok. Qed.
+(* the true functions: exp > 0, pow(v,2) > 0 for v <> 0, pow(v,w) > 0 for v > 0; the extraterrestrial radiation
+   of solar.go is >= 0 for the true sin/cos/tan/acos and the exact constants at every latitude strictly between
+   the poles on every day; hence Turc-Wendling without measured radiation is complete for them *)
+Theorem C08_et0_true_functions : true_functions_stmt.
+Proof. exact true_functions_lemma. Qed.
 
-Theorem C08_pt_divisor_pos : forall (O : Orc R) (x : et0_in (T:=R)),
-  orc_ok O -> ti_temp x + 2373 / 10 <> 0 -> ti_alti x < 293 / (65 / 10000) -> 0 < @pt_den R RNum O x.
-Proof. exact pt_den_pos. Qed.
-
-Theorem C08_pm_divisor_pos : forall deltsat psych rsurf wind : R,
-  0 < deltsat -> 0 < psych -> 0 <= rsurf -> 0 <= wind -> 0 < @pm_den R RNum deltsat psych rsurf wind.
-Proof. exact pm_den_pos. Qed.
-
-Theorem C08_pm_terms_pos : forall (O : Orc R) (t alti : R),
-  orc_ok O -> t + 2373 / 10 <> 0 -> alti < 293 / (65 / 10000) ->
-  0 < @deltsat_of R RNum O t /\ 0 < 665 / 1000000 * @atmpress_of R RNum O alti.
-Proof. exact pm_terms_pos. Qed.
-
-Theorem C08_wind_floor : forall (O : Orc R) (x : et0_in (T:=R)), 5 / 10 <= @wind2m R RNum O x.
-Proof. exact wind2m_floor. Qed.
+(* definedness of the combination formulas: the divisor of Priestley-Taylor and of Penman-Monteith, the slope of
+   the saturation curve and the psychrometer term are positive (TEMP <> -237.3 degC, altitude < 45077 m, functions
+   with the three facts above; RSURF >= 0 is a hypothesis: constant without CO2 response, stomat's result with it);
+   the wind speed Penman-Monteith uses is at least 0.5 m/s whatever was measured *)
+Theorem C08_et0_definedness : definedness_stmt.
+Proof. exact definedness_lemma. Qed.
 
 Example C08_et0_domain_nonvacuous : forall (O : Orc R) (K : Consts R),
   et0_domain O K
@@ -214,19 +171,9 @@ Print Assumptions C08_uptake_zone.
 Print Assumptions C08_uptake_avail.
 Print Assumptions C08_ratios.
 Print Assumptions C08_pet_in_range.
-Print Assumptions C08_et0_haude_nonneg.
-Print Assumptions C08_et0_file_nonneg.
-Print Assumptions C08_et0_turc_rad_nonneg.
-Print Assumptions C08_et0_turc_sunshine_nonneg.
-Print Assumptions C08_ext_nonneg.
-Print Assumptions C08_et0_turc_sunshine_nonneg_real.
-Print Assumptions C08_et0_pt_nonneg.
-Print Assumptions C08_et0_pm_nonneg.
+Print Assumptions C08_et0_methods_nonneg.
+Print Assumptions C08_et0_true_functions.
+Print Assumptions C08_et0_definedness.
 Print Assumptions C08_et0_all_methods_nonneg.
 Print Assumptions C08_pet_unchanged_below_cap.
 Print Assumptions C08_pot_nonneg_refuted.
-Print Assumptions C08_real_functions_ok.
-Print Assumptions C08_pt_divisor_pos.
-Print Assumptions C08_pm_divisor_pos.
-Print Assumptions C08_pm_terms_pos.
-Print Assumptions C08_wind_floor.
